@@ -29,7 +29,7 @@ from collections.abc import Set
 from typing import TYPE_CHECKING, Literal, final
 
 from ._columns import ColumnTag
-from ._exceptions import EngineError
+from ._exceptions import ColumnError, EngineError
 from ._relation import Relation
 
 if TYPE_CHECKING:
@@ -273,6 +273,11 @@ class UnaryOperation(ABC):
         when they can determine that the operation will do nothing when applied
         to the given target.
         """  # noqa: D401
+        if not self.columns_required <= target.columns:
+            raise ColumnError(
+                f"Cannot apply {self} to {target}: missing columns "
+                f"{set(self.columns_required - target.columns)}."
+            )
         return self, preferred_engine if preferred_engine is not None else target.engine
 
     def _finish_apply(self, target: Relation) -> Relation:
